@@ -313,7 +313,9 @@ func (g *cliGen) sendUnit(s *cliStream) {
 			switch s.offence {
 			case "no-status":
 			case "two-status":
-				fields = append(fields, [2]string{":status", s.status}, [2]string{":status", s.status})
+				// the same twice, or an empty / malformed / different one before or after
+				pair := [][2]string{{s.status, s.status}, {"", s.status}, {s.status, ""}, {"2oo", s.status}, {s.status, "404"}, {"", ""}}[g.r.intn(6)]
+				fields = append(fields, [2]string{":status", pair[0]}, [2]string{":status", pair[1]})
 			case "pseudo-after-regular":
 				fields = append(fields, s.fields[0])
 				fields = append(fields, [2]string{":status", s.status})
